@@ -1,6 +1,8 @@
 import Abmarl.Lemmas.Broadcast
 import Abmarl.Lemmas.BroadcastObs
 import Abmarl.Lemmas.BroadcastStep
+import Abmarl.Lemmas.BroadcastDeliv
+import Abmarl.Lemmas.BroadcastRecv
 /-!
 # `BroadcastSim` (`abmarl/examples/sim/comms_blocking.py`) inside the model: C02, C03, C08
 
@@ -38,19 +40,24 @@ Proved:
   in the sense of the specification (`BC.reaches`: another active agent within the broadcast range, encoding allowed by
   the mapping, on a cell the rule of C10 does not hide) — nothing is delivered that did not reach.
 
-NOT proved (statements kept here; the judge evaluates them at run time on every trace of the correspondence stream):
+* **delivery, one scan** `broadcast_delivery_complete`, `broadcast_delivery`: conversely every reached agent IS in the
+  returned list, and the list has no repetitions (an agent stands in one cell, a cell lists an agent once): the members
+  of the scan are EXACTLY the reached agents, once each (`BC.determine_complete`, `BC.determine_nodup`,
+  `Lemmas/BroadcastDeliv.lean`).
 
-* `broadcast_delivery` (full) — `∀ cfg w0 s acts s', Good cfg w0 s → cfgHypb cfg s.w = true → BC.step cfg s acts = .ok s' →
-     ∃ rv, s.recv = some rv ∧ s'.recv = some (BC.recvAfter cfg s.w s.msgs acts rv)`:
-  a receiving list grows by EXACTLY the senders that reach the receiver, once each, in the order of the action dict.
-  Proved: the "only if" half at the level of one scan (`broadcast_delivery_partial`).  Missing: completeness (a reached
-  agent is in the scan: the converse reading of `BC.determine_eq` with `mem_cell_iff_pos`), `Nodup` of the scan (an agent
-  stands in one cell: `List.nodup_flatMap`), and the bookkeeping that turns the per-sender `dictSet`s into the
-  per-receiver `filterMap` of `recvAfter`.
+* **delivery, one step** `broadcast_delivery_step`: in every state of the invariant, on a configuration satisfying
+  `cfgHypb`, a `step` that returns leaves `receiving_state` equal to `BC.recvAfter`: every receiving list grows by EXACTLY
+  the senders that chose to broadcast and reach the receiver, once each, in the order of the action dict, carrying the
+  sender's message; no message changes (`BC.step_recv`, `Lemmas/BroadcastRecv.lean`: the per-sender `dictSet`s are the
+  per-receiver `filterMap`).
+
+NOT proved (statement kept here; the judge evaluates it at run time on every trace of the correspondence stream):
+
 * `broadcast_hist` — `∀ cfg w0 ops, bcPre cfg w0 ops = true →
-     specBC cfg w0 (zipOps ops (runOps cfg (init w0) ops).1) = true`.  Missing: full delivery (every other clause of
-  `judge1` is one of the theorems of this file).  The driver evaluates `specBC` on the model's own exact run of every
-  request (reply field `specOnModel`): a `0` there is reported as a broken obligation.
+     specBC cfg w0 (zipOps ops (runOps cfg (init w0) ops).1) = true`.  Missing: only the assembly over the six kinds of
+  call (every clause of `judge1`, full delivery included, is one of the theorems of this file; the `step` entry is
+  assembled: `broadcast_hist_step_partial`).  The driver evaluates `specBC` on the model's own
+  exact run of every request (reply field `specOnModel`): a `0` there is reported as a broken obligation.
 -/
 namespace Abmarl
 open World
@@ -132,6 +139,39 @@ theorem broadcast_delivery_partial (cfg : BC.Cfg) (w : World) (a : Aid) (l : Lis
     (hl : cfg.mapping.lookup (w.encOf a) = some l) (hp : w.inGrid (w.stOf a).pos = true) :
     ∃ tos, BC.determine cfg w a = .ok tos ∧ ∀ b ∈ tos, BC.reaches cfg w a b = true :=
   ⟨_, BC.determine_eq hl hp, fun _ hb => BC.determine_sound hI hl hp (BC.determine_eq hl hp) hb⟩
+
+/-- **delivery, completeness half**: every agent the broadcast reaches in the sense of the specification (`BC.reaches`:
+in range, encoding allowed by the mapping, not hidden by a blocking agent per `Mask.hiddenSpec`, not the sender) IS in
+the list `determine_broadcast` returns — the converse of `broadcast_delivery_partial` -/
+theorem broadcast_delivery_complete (cfg : BC.Cfg) (w : World) (a : Aid) (l : List Int) (hI : w.WInv = true)
+    (hl : cfg.mapping.lookup (w.encOf a) = some l) (hp : w.inGrid (w.stOf a).pos = true) :
+    ∃ tos, BC.determine cfg w a = .ok tos ∧ ∀ b, BC.reaches cfg w a b = true → b ∈ tos :=
+  ⟨_, BC.determine_eq_scan hl hp, fun _ hr => BC.determine_complete hI hl hp hr⟩
+
+/-- **delivery, one scan**: `determine_broadcast` returns a list without repetitions whose members are EXACTLY the
+agents the broadcast reaches -/
+theorem broadcast_delivery (cfg : BC.Cfg) (w : World) (a : Aid) (l : List Int) (hI : w.WInv = true)
+    (hl : cfg.mapping.lookup (w.encOf a) = some l) (hp : w.inGrid (w.stOf a).pos = true) :
+    ∃ tos, BC.determine cfg w a = .ok tos ∧ tos.Nodup ∧ ∀ b, b ∈ tos ↔ BC.reaches cfg w a b = true :=
+  ⟨_, BC.determine_eq_scan hl hp, BC.determine_nodup hI hp, BC.mem_scan_iff hI hl hp⟩
+
+/-- **delivery, one step**: a `step` that returns appends to every receiving list exactly what the specification says
+(`BC.recvAfter`: one entry `(sender, sender's message)` per item of the action dict, in its order, whose sender is a
+broadcaster that chose to broadcast and reaches the receiver), and changes no message -/
+theorem broadcast_delivery_step (cfg : BC.Cfg) (w0 : World) (s s' : BC.St) (hG : BC.Good cfg w0 s)
+    (hH : BC.cfgHypb cfg s.w = true) (acts : List (Aid × BC.Act)) (h : BC.step cfg s acts = .ok s') :
+    ∃ rv, s.recv = some rv ∧ s'.recv = some (BC.recvAfter cfg s.w s.msgs acts rv) ∧ s'.msgs = s.msgs :=
+  BC.step_recv hG hH h
+
+/-- **the `step` entry of the judge holds on the model's own run** (`broadcast_hist` for one `step`): in a state of the
+invariant, on a configuration satisfying `cfgHypb`, for items for agents of the simulation with moves of the declared
+spaces and ANY `broadcast` values, the clause `BC.judge1` of the judge for the call `step` — world invariant, frame,
+everybody active, messages unchanged, `receiving_state` equal to `BC.recvAfter`, reward keys kept; and if the call raised,
+then the "must not raise" precondition failed — is true of the entry the model produces -/
+theorem broadcast_hist_step_partial (cfg : BC.Cfg) (w0 : World) (hcfg : CfgOK w0) (s : BC.St) (hG : BC.Good cfg w0 s)
+    (hH : BC.cfgHypb cfg s.w = true) (acts : List (Aid × BC.Act)) (t : Tape) (hA : BC.ActsOK w0 acts) (res0 : BC.BRes) :
+    BC.judge1 cfg w0 (BC.see res0 s) (.step acts t) (BC.runOp cfg s (.step acts t)).1 = true :=
+  BC.judge1_step hcfg hG hH acts t hA res0
 
 /-! ## C08 -/
 
@@ -235,5 +275,15 @@ example :
 example : cfgOKb exBCWorld3 = true ∧ exBCWorld3.vitalsAlive = true ∧
     BC.compOKb exBCWorld3 (.position .position {}) = true := by
   refine ⟨by decide +kernel, by decide +kernel, by decide +kernel⟩
+
+/-- non-vacuity of `broadcast_delivery` on the world with the blocker: the hypotheses hold for sender 0, the scan
+returns exactly `[2]` (agent 1 is behind the wall, agent 3 is the wall: its encoding is not allowed), and `BC.reaches`
+says the same of every agent -/
+example :
+    exBCWorld3.WInv = true ∧ exBCCfg3.mapping.lookup (exBCWorld3.encOf 0) = some [1] ∧
+    exBCWorld3.inGrid (exBCWorld3.stOf 0).pos = true ∧
+    (match BC.determine exBCCfg3 exBCWorld3 0 with | .ok tos => tos == [2] | .error _ => false) = true ∧
+    (List.range 4).map (BC.reaches exBCCfg3 exBCWorld3 0) = [false, false, true, false] := by
+  refine ⟨by decide +kernel, by decide +kernel, by decide +kernel, by decide +kernel, by decide +kernel⟩
 
 end Abmarl
